@@ -203,6 +203,28 @@ class Interp:
                     break
                 except Continue:
                     continue
+        elif k == 'ForStmt':
+            if n.get('init'):
+                self.ex(n['init'], env)
+            while (not n.get('cond')) or self.truth(self.ev(n['cond'], env)):
+                try:
+                    self.ex(n['body'], env)
+                except Break:
+                    break
+                except Continue:
+                    pass
+                if n.get('inc'):
+                    self.ev(n['inc'], env)
+        elif k == 'DoStmt':
+            while True:
+                try:
+                    self.ex(n['body'], env)
+                except Break:
+                    break
+                except Continue:
+                    pass
+                if not self.truth(self.ev(n['cond'], env)):
+                    break
         elif k == 'SwitchStmt':
             v = self.ev(n['cond'], env)
             body = fn.nodes[n['body']]
